@@ -77,6 +77,27 @@ func init() {
 			return "", err
 		}
 		emit("saveOutputsCalls", selCalls(fd.Body, set("Commit", "saveTokenUtxoOutputSeq")), e.pos(fd))
+		fd, err = e.funcDecl("consensus/new_status.go", "", "saveStatus")
+		if err != nil {
+			return "", err
+		}
+		var sc []string
+		ast.Inspect(fd.Body, func(x ast.Node) bool {
+			if c, ok := x.(*ast.CallExpr); ok {
+				switch fn := c.Fun.(type) {
+				case *ast.Ident:
+					if strings.HasPrefix(fn.Name, "save") {
+						sc = append(sc, fn.Name)
+					}
+				case *ast.SelectorExpr:
+					if fn.Sel.Name == "SetSync" || fn.Sel.Name == "Set" {
+						sc = append(sc, fn.Sel.Name+"("+src(e, c.Args[0])+")")
+					}
+				}
+			}
+			return true
+		})
+		emit("saveStatusCalls", sc, e.pos(fd))
 		fd, err = e.funcDecl("blockchain/store.go", "BlockStore", "DeleteHistoricalData")
 		if err != nil {
 			return "", err
